@@ -66,6 +66,26 @@ class C09(core.Prop):
             allops = self.single_ops(n)
             ops = [rng.choice(allops) for _ in range(rng.randint(2, 12))]
             cases.append({"rule": rule, "init": init, "ops": ops, "label": "sequence"})
+        # hidden switches (declared enabled=False) are members of the vector all the same: the rule counts them
+        for rule in RULES:
+            for n in (2, 3):
+                for init in itertools.product((False, True), repeat=n):
+                    for h in range(n):
+                        hidden = [i == h for i in range(n)]
+                        for op in self.single_ops(n):
+                            cases.append({"rule": rule, "init": list(init), "ops": [op], "hidden": hidden, "label": "hidden-single"})
+        for _ in range(150 if tier == "quick" else 3000):
+            rule = rng.choice(RULES)
+            n = rng.randint(2, 5)
+            init = [False] * n
+            if rng.random() < 0.8:
+                init[rng.randrange(n)] = True
+            hidden = [rng.random() < 0.4 for _ in range(n)]
+            if not any(hidden):
+                hidden[rng.randrange(n)] = True
+            allops = self.single_ops(n)
+            ops = [rng.choice(allops) for _ in range(rng.randint(2, 10))]
+            cases.append({"rule": rule, "init": init, "ops": ops, "hidden": hidden, "label": "hidden-sequence"})
         return cases
 
     def model_input(self, c):
@@ -104,6 +124,8 @@ class C09(core.Prop):
             op = c["ops"][k]
             if o["raised"]:
                 return "raised: %s on a %s vector raised %s" % (op[0], rule, o["raised"])
+            if o.get("listed_ok") is False:
+                return "listed: an update lists %s, the visible switches are in states %s" % (o["listed"], o["pubs"])
             if ok_start:
                 for p in o["pubs"] + [o["state"]]:
                     if not inv(rule, p, one):
